@@ -161,7 +161,7 @@ func sigParamType(sig *types.Signature, i int) types.Type {
 }
 
 // beforeClauses: "before <callee>: E" obligations of the enclosing function's contract
-func (g *VCGen) beforeClauses(c *ssa.CallCommon, pos token.Pos) {
+func (g *VCGen) beforeClauses(c *ssa.CallCommon, pos token.Pos, instr ssa.Instruction) {
 	if g.fc == nil || len(g.fc.Before) == 0 {
 		return
 	}
@@ -170,6 +170,16 @@ func (g *VCGen) beforeClauses(c *ssa.CallCommon, pos token.Pos) {
 		name = c.Method.Name()
 	} else if callee := c.StaticCallee(); callee != nil {
 		name = callee.Name()
+	} else if key := dynCallKey(c.Value); key != "" {
+		name = key[strings.LastIndex(key, ".")+1:]
+	}
+	g.beforeNamed(name, pos, instr)
+}
+
+// beforeNamed: obligations "before <name>: E" evaluated in the state just before the instruction
+func (g *VCGen) beforeNamed(name string, pos token.Pos, instr ssa.Instruction) {
+	if g.fc == nil {
+		return
 	}
 	cls := g.fc.Before[name]
 	if len(cls) == 0 {
@@ -177,15 +187,8 @@ func (g *VCGen) beforeClauses(c *ssa.CallCommon, pos token.Pos) {
 	}
 	env := g.ownEnv(g.cur)
 	var blk *ssa.BasicBlock
-	if v, ok := c.Value.(ssa.Instruction); ok {
-		blk = v.Block()
-	}
-	if blk == nil {
-		for _, a := range c.Args {
-			if in, ok := a.(ssa.Instruction); ok {
-				blk = in.Block()
-			}
-		}
+	if instr != nil {
+		blk = instr.Block()
 	}
 	if blk != nil {
 		env.locals = g.localsAt(blk, nil)
@@ -199,7 +202,7 @@ func (g *VCGen) callInstr(ci ssa.CallInstruction, v *ssa.Call) {
 	c := ci.Common()
 	var results []SpecVal
 	pos := ci.Pos()
-	g.beforeClauses(c, pos)
+	g.beforeClauses(c, pos, ci)
 	if c.IsInvoke() {
 		results = g.invoke(c, pos, v)
 	} else if b, ok := c.Value.(*ssa.Builtin); ok {
@@ -378,7 +381,56 @@ func (g *VCGen) applyContract(fc *FuncContract, pkg *types.Package, names []stri
 	return results
 }
 
+// dynCallKey: "Type.field" when the called function value is read from a struct field
+func dynCallKey(v ssa.Value) string {
+	var st types.Type
+	var field int
+	switch x := v.(type) {
+	case *ssa.UnOp:
+		fa, ok := x.X.(*ssa.FieldAddr)
+		if !ok {
+			return ""
+		}
+		st = fa.X.Type().Underlying().(*types.Pointer).Elem()
+		field = fa.Field
+	case *ssa.Field:
+		st = x.X.Type()
+		field = x.Field
+	default:
+		return ""
+	}
+	n, ok := st.(*types.Named)
+	if !ok {
+		return ""
+	}
+	return n.Obj().Name() + "." + n.Underlying().(*types.Struct).Field(field).Name()
+}
+
 func (g *VCGen) dynamicCall(c *ssa.CallCommon, pos token.Pos, v *ssa.Call) []SpecVal {
+	if key := dynCallKey(c.Value); key != "" {
+		pkg := g.pkgOf(g.fn)
+		if fc := g.eng.contracts.Funcs[pkg.Path()+"::dyn:"+key]; fc != nil {
+			g.val(c.Value)
+			args := g.argVals(c)
+			sig := c.Signature()
+			var names []string
+			for i := 0; i < sig.Params().Len(); i++ {
+				n := sig.Params().At(i).Name()
+				if n == "" || n == "_" {
+					n = fmt.Sprintf("arg%d", i)
+				}
+				names = append(names, n)
+			}
+			var resTypes []types.Type
+			var resNames []string
+			for i := 0; i < sig.Results().Len(); i++ {
+				resTypes = append(resTypes, sig.Results().At(i).Type())
+				resNames = append(resNames, sig.Results().At(i).Name())
+			}
+			g.usedTrusted["assumed contract for the function value "+key+" (generated code)"] = true
+			return g.applyContract(fc, pkg, names, args, resTypes, resNames, pos, "dyncall@"+key)
+		}
+	}
 	// call of a function value (parameter, field, closure variable). Modelled as a pure, deterministic,
 	// possibly panicking application: result = apply_sig(fn, args...).
 	if g.fc == nil || !(g.fc.MayPanic) {
